@@ -17,8 +17,8 @@ from .error_codes cimport (ErrorCode,
                            MAGIC_NUMBER_DOES_NOT_MATCH,
                            VERSION_NUMBER_DOES_NOT_MATCH,
                            INITIAL_ERROR_CODE,
-                           ONLY_ONE_OUTCOME_PER_EVENT,
-                           ERROR_CODES)
+                           ONLY_ONE_OUTCOME_PER_EVENT)
+from .ndl_parallel import ERROR_CODES
 
 
 def learn_inplace_binary_to_binary(binary_file_paths,
